@@ -5,6 +5,7 @@ import (
 	"go/token"
 	"go/types"
 	"strings"
+	"sync/atomic"
 
 	"golang.org/x/tools/go/ssa"
 )
@@ -458,7 +459,7 @@ func checkC11(p *Prog, r *Result, tier string) {
 
 	// R4
 	if rep := p.FuncByName("DB.Repair"); rep != nil {
-		sawAccept, sawUnindex := false, false
+		var sawAccept, sawUnindex atomic.Bool
 		acquire := p.FuncByName("DB.schema")
 		exploreAll(p, c, jobsFor([]*ssa.Function{rep}, []Valuation{{Cache: triNo, Async: triNo}, {Cache: triYes, Async: triYes}}), effs(EOkObjRead, EFsReadDir, EOkAccept, ECallGetCache, EJsonDec, ECallFlushPend), r, func(j exploreJob) Listener {
 			return &effListener{p: p, r: r, root: j.root, val: j.val,
@@ -508,7 +509,7 @@ func checkC11(p *Prog, r *Result, tier string) {
 						l.bad("C11.R4", fn, "no object file mutation: "+ev.Eff.String(), "Repair reaches a mutation of object files", l.p.Pos(ev.Instr.Pos()), x, st, ev.Instr)
 					case EIdxWLive:
 						if st.onStackRecv(a.ObjIndex, func(f *ssa.Function) bool { return c.Of(f).Has(EErrUnique) }) {
-							sawAccept = true
+							sawAccept.Store(true)
 							cached := (l.val.Cache == triYes || l.val.Async == triYes) && st.must.Has(ECallGetCache)
 							if st.must.Has(EOkObjRead) || cached {
 								l.ok("C11.R4", FuncName(rep), "re-index only after a successful file read, through the accepting insertion", l.p.Pos(ev.Instr.Pos()))
@@ -517,7 +518,7 @@ func checkC11(p *Prog, r *Result, tier string) {
 							}
 						}
 					case ECallUnindex:
-						sawUnindex = true
+						sawUnindex.Store(true)
 					case EJsonDec:
 						if st.onStack(rep) && len(st.frames) > 1 {
 							if ev.Tags&TParamObj != 0 {
@@ -539,12 +540,12 @@ func checkC11(p *Prog, r *Result, tier string) {
 					}
 				}}
 		}, func(x *Explorer) { x.AssumeStorePresent = true })
-		if sawAccept {
+		if sawAccept.Load() {
 			r.Report("C11.R4", FuncName(rep), "indexes unindexed files", Discharged, "", "", nil, true)
 		} else {
 			r.Report("C11.R4", FuncName(rep), "indexes unindexed files", Violated, "no path of Repair inserts into the live index through the accepting insertion", "", nil, true)
 		}
-		if sawUnindex {
+		if sawUnindex.Load() {
 			r.Report("C11.R4", FuncName(rep), "drops entries without file", Discharged, "", "", nil, true)
 		} else {
 			r.Report("C11.R4", FuncName(rep), "drops entries without file", Violated, "no path of Repair un-indexes an entry", "", nil, true)
